@@ -333,6 +333,11 @@ pub fn set_trace(path: &str) {
     TRACE.with(|t| *t.borrow_mut() = Some(f));
 }
 
+/// For engines without instruction wrappers: note what is about to run.
+pub fn trace_note(name: &str) {
+    trace(name, 0);
+}
+
 fn trace(name: &str, ev: u64) {
     TRACE.with(|t| {
         if let Some(f) = t.borrow_mut().as_mut() {
